@@ -1,0 +1,23 @@
+//go:build verif
+
+// Package verifbridge re-exports benchfmt/internal/bytesconv for the
+// verification harness. It is only built with -tags verif.
+package verifbridge
+
+import "golang.org/x/perf/benchfmt/internal/bytesconv"
+
+var (
+	ErrRange  = bytesconv.ErrRange
+	ErrSyntax = bytesconv.ErrSyntax
+)
+
+type NumError = bytesconv.NumError
+
+func Atoi(s []byte) (int, error)                        { return bytesconv.Atoi(s) }
+func ParseFloat(s []byte, bitSize int) (float64, error) { return bytesconv.ParseFloat(s, bitSize) }
+func ParseInt(s []byte, base, bitSize int) (int64, error) {
+	return bytesconv.ParseInt(s, base, bitSize)
+}
+func ParseUint(s []byte, base, bitSize int) (uint64, error) {
+	return bytesconv.ParseUint(s, base, bitSize)
+}
